@@ -23,6 +23,12 @@ def check(ctx):
     # ... and, in a generated timeline, every animated property (C17/G6)
     from rules import derive_rules
     derive_rules.rule_blend_wiring(ctx, "R8")
+    # the blended start frame is found at time 0 only if the boundary table the search runs on is sorted: keyframes sorted once,
+    # by a total ascending comparator, stably, before anything is derived from their order (C11/R1-R2, R4)
+    from rules import c11
+    for bb in [x for x in c11.builders_of(ctx.facts, c11.TBA) if ctx.facts.body_unit[x["id"]][0] == "mina_core"]:
+        c11.check_builder(ctx, ctx.facts, bb, "R10")
+    c11.rule_append_only(ctx, ctx.facts, "R10")
     # the first evaluation after the switch reproduces the blended start value only if the easing maps 0 to exactly 0 and the
     # interpolation at 0 returns its first argument exactly (C13/R1-R3, C14/R1)
     from rules import c13, c14
